@@ -73,8 +73,8 @@ func check(t ev.TB, c Case, labels ...string) {
 	nt := strings.Contains(c.Cause, "failnode") || len(watcherNodes) >= 2
 	ev.Case(nt, c, append(labels, "cause:"+c.Cause, fmt.Sprintf("nodes:%d", c.Nodes))...)
 	if f != nil && f.inconclusive {
-		ev.Count("inconclusive_cases", 1)
-		t.Fatalf("VERIF-INCONCLUSIVE %s", f.msg)
+		ev.Inconclusive(t, f.msg)
+		return
 	}
 	if f != nil {
 		ev.Fail(t, "will", c, "%s", f.msg)
